@@ -12,6 +12,8 @@ import (
 	"github.com/pinealctx/neptune/stcp"
 	"github.com/pinealctx/neptune/zverif/vsync"
 
+	"github.com/pinealctx/neptune/zverif/vtime"
+
 	"verifh/ev"
 	"verifh/mc"
 	_ "verifh/quiet"
@@ -371,6 +373,245 @@ func acceptScenario(nconn int, max int32, pb, fb [2]int) *mc.Scenario {
 		Invariant: countInvariant}
 }
 
+// ---- timed connection: deadlines are honoured on a virtual clock (discrete-event time) ----
+
+const (
+	rtTicks = 5 // read timeout of the timed manager, in ticks (= virtual seconds)
+	wtTicks = 2 // write timeout
+)
+
+var clockBase = time.Unix(1700000000, 0)
+
+type tclock struct {
+	w   *mc.World
+	now int64
+}
+
+func toTick(t time.Time) int64 {
+	if t.IsZero() {
+		return 0
+	}
+	return int64(t.Sub(clockBase) / time.Second)
+}
+
+// tconn: Read blocks until data, peer close, local close or the read deadline; Write to a stalled
+// peer blocks until local close or the write deadline (like net.Conn, a deadline set while the
+// operation is pending applies to it).
+type tconn struct {
+	w            *mc.World
+	ck           *tclock
+	q            []byte
+	peerClosed   bool
+	stalled      bool
+	closed       int
+	rdl, wdl     int64 // 0 = none
+	rBlocked     bool
+	wBlocked     bool
+	lastReadRet  int64
+	lastWriteRet int64
+	peerGot      []byte
+}
+
+func (c *tconn) Read(p []byte) (int, error) {
+	w := c.w
+	w.Touch()
+	if len(p) == 0 {
+		return 0, nil
+	}
+	tr := c.ck.now
+	c.rBlocked = true
+	vsync.BlockOn(func() bool {
+		return len(c.q) > 0 || c.peerClosed || c.closed > 0 || (c.rdl > 0 && c.ck.now >= c.rdl)
+	})
+	w.Touch()
+	c.rBlocked = false
+	defer func() { c.lastReadRet = c.ck.now }()
+	switch {
+	case c.closed > 0:
+		return 0, errClosed
+	case len(c.q) > 0:
+		n := copy(p, c.q)
+		c.q = c.q[n:]
+		return n, nil
+	case c.peerClosed:
+		return 0, io.EOF
+	}
+	// read timeout: it must be the one the receive loop armed for this read
+	if c.rdl > tr+rtTicks {
+		w.Failf("a read issued at t=%d with read timeout %d was still armed until t=%d: something re-armed the read deadline", tr, rtTicks, c.rdl)
+	}
+	if c.rdl < c.lastReadRet+rtTicks {
+		w.Failf("a read timed out at t=%d although the previous read returned at t=%d and the read timeout is %d: the peer was not silent for the configured time", c.rdl, c.lastReadRet, rtTicks)
+	}
+	return 0, timeoutErr{}
+}
+
+func (c *tconn) Write(p []byte) (int, error) {
+	w := c.w
+	w.Touch()
+	if c.closed > 0 {
+		return 0, errClosed
+	}
+	if !c.stalled {
+		c.peerGot = append(c.peerGot, p...)
+		c.lastWriteRet = c.ck.now
+		return len(p), nil
+	}
+	tw := c.ck.now
+	c.wBlocked = true
+	vsync.BlockOn(func() bool { return c.closed > 0 || (c.wdl > 0 && c.ck.now >= c.wdl) })
+	w.Touch()
+	c.wBlocked = false
+	defer func() { c.lastWriteRet = c.ck.now }()
+	if c.closed > 0 {
+		return 0, errClosed
+	}
+	if c.wdl > tw+wtTicks {
+		w.Failf("a write to a peer that does not read, issued at t=%d with write timeout %d, was still armed until t=%d: something re-armed the write deadline, the session outlives its write timeout", tw, wtTicks, c.wdl)
+	}
+	if c.wdl < c.lastWriteRet+wtTicks {
+		w.Failf("a write timed out at t=%d although the previous write returned at t=%d and the write timeout is %d", c.wdl, c.lastWriteRet, wtTicks)
+	}
+	return 0, timeoutErr{}
+}
+
+func (c *tconn) Close() error {
+	c.w.Touch()
+	c.closed++
+	if c.closed > 1 {
+		return errClosed
+	}
+	return nil
+}
+func (c *tconn) LocalAddr() net.Addr  { return addr("local") }
+func (c *tconn) RemoteAddr() net.Addr { return addr("timed-peer") }
+func (c *tconn) SetDeadline(t time.Time) error {
+	c.w.Touch()
+	c.rdl, c.wdl = toTick(t), toTick(t)
+	return nil
+}
+func (c *tconn) SetReadDeadline(t time.Time) error  { c.w.Touch(); c.rdl = toTick(t); return nil }
+func (c *tconn) SetWriteDeadline(t time.Time) error { c.w.Touch(); c.wdl = toTick(t); return nil }
+
+type timedProg struct {
+	name       string
+	stalled    bool
+	sends      []string
+	localClose bool
+	peerFrames string
+	peerClose  bool
+	freeTicks  int
+	pb         [2]int
+}
+
+// timedScenario: one session over a tconn; a clock thread first ticks freeTicks times at arbitrary
+// points of the schedule, then advances time to the next pending deadline whenever everything else
+// is blocked (discrete-event time), until every other thread has finished.
+func timedScenario(p timedProg) *mc.Scenario {
+	return &mc.Scenario{Name: "timed/" + p.name, PB: p.pb,
+		Main: func(w *mc.World) {
+			ck := &tclock{w: w}
+			vtime.NowFn = func() time.Time { w.Touch(); return clockBase.Add(time.Duration(ck.now) * time.Second) }
+			h := &handler{w: w, exits: map[*stcp.Session]int{}, frames: map[*stcp.Session][]byte{}}
+			mgr := stcp.NewSessionMgr(h, stcp.WithReadTimeout(rtTicks*time.Second), stcp.WithWriteTimeout(wtTicks*time.Second))
+			c := &tconn{w: w, ck: ck, stalled: p.stalled}
+			s := stcp.NewSession(mgr, c)
+			var accepted []string
+			w.Go("local", func() {
+				s.Start()
+				for _, pl := range p.sends {
+					if err := s.Send([]byte(pl)); err == nil {
+						w.Touch()
+						accepted = append(accepted, pl)
+					}
+				}
+				if p.localClose {
+					s.Close()
+				}
+			})
+			w.Go("peer", func() {
+				for _, f := range []byte(p.peerFrames) {
+					vsync.Yield()
+					w.Touch()
+					c.q = append(c.q, f)
+				}
+				if p.peerClose {
+					vsync.Yield()
+					w.Touch()
+					c.peerClosed = true
+				}
+			})
+			var clock *vsync.Thread
+			clock = w.Go("clock", func() {
+				for i := 0; i < p.freeTicks; i++ {
+					vsync.Yield()
+					w.Touch()
+					ck.now++
+				}
+				for {
+					done := false
+					vsync.BlockOn(func() bool {
+						all := true
+						for _, t := range w.S.Threads() {
+							if t == clock || t == w.S.Threads()[0] {
+								continue
+							}
+							if !t.Finished() {
+								all = false
+								if !w.S.IsBlocked(t) {
+									return false
+								}
+							}
+						}
+						if all {
+							return true
+						}
+						return (c.rBlocked && c.rdl > ck.now) || (c.wBlocked && c.wdl > ck.now)
+					})
+					w.Touch()
+					done = true
+					for _, t := range w.S.Threads() {
+						if t != clock && t != w.S.Threads()[0] && !t.Finished() {
+							done = false
+						}
+					}
+					if done {
+						return
+					}
+					next := int64(0)
+					if c.rBlocked && c.rdl > ck.now {
+						next = c.rdl
+					}
+					if c.wBlocked && c.wdl > ck.now && (next == 0 || c.wdl < next) {
+						next = c.wdl
+					}
+					if next == 0 {
+						w.Failf("clock: quiescent without a pending deadline")
+						return
+					}
+					ck.now = next
+				}
+			})
+			w.Join()
+			w.Touch()
+			if n := h.exits[s]; n != 1 {
+				w.Failf("the exit callback ran %d times", n)
+			}
+			if c.closed == 0 {
+				w.Failf("the session ended but its connection was never closed")
+			}
+			if n := mgr.ConnCount(); n != 0 {
+				w.Failf("the session ended but the connection count is %d", n)
+			}
+			if !p.stalled && p.localClose && !p.peerClose && len(p.sends) > 0 {
+				if want := strings.Join(accepted, ""); string(c.peerGot) != want {
+					w.Failf("Send accepted %q before the local Close but the peer received %q", want, c.peerGot)
+				}
+			}
+			w.Obs("ended at t=%d got=%q frames=%q", ck.now, c.peerGot, h.frames[s])
+		}}
+}
+
 func scenarios() []*mc.Scenario {
 	var scs []*mc.Scenario
 	// flush before local close
@@ -392,6 +633,15 @@ func scenarios() []*mc.Scenario {
 		sessScenario(sessProg{name: "faults/with-handler-panic", sessions: 1, sends: []string{"ab"}, peerFrames: "P", faults: true, pb: [2]int{2, 3}, dev: [2]int{1, 2}}),
 		sessScenario(sessProg{name: "two-sessions/local-close+peer-close", sessions: 2, sends: []string{"ab"}, localClose: true, peerFrames: "x", peerClose: true, pb: [2]int{1, 2}, fb: [2]int{4, 6}}),
 		sessScenario(sessProg{name: "two-sessions/faults", sessions: 2, sends: []string{"ab"}, peerFrames: "x", peerClose: true, faults: true, pb: [2]int{1, 1}, dev: [2]int{1, 1}, fb: [2]int{3, 5}}),
+	)
+	// deadlines on a virtual clock: read timeout, write timeout to a peer that does not read, heartbeats
+	scs = append(scs,
+		timedScenario(timedProg{name: "silent-peer/read-timeout", sends: []string{"ab"}, freeTicks: 2, pb: [2]int{2, 3}}),
+		timedScenario(timedProg{name: "peer-frames-then-silent", sends: []string{"ab"}, peerFrames: "xy", freeTicks: 2, pb: [2]int{2, 3}}),
+		timedScenario(timedProg{name: "stalled-peer/write-timeout", stalled: true, sends: []string{"ab", "c"}, freeTicks: 2, pb: [2]int{2, 3}}),
+		timedScenario(timedProg{name: "stalled-peer/heartbeats-while-write-pending", stalled: true, sends: []string{"ab"}, peerFrames: "xyz", freeTicks: 2, pb: [2]int{2, 3}}),
+		timedScenario(timedProg{name: "stalled-peer/local-close-with-unflushable-data", stalled: true, sends: []string{"ab"}, localClose: true, peerFrames: "xy", freeTicks: 1, pb: [2]int{2, 3}}),
+		timedScenario(timedProg{name: "local-close-flush/timed", sends: []string{"ab", "c"}, localClose: true, peerFrames: "x", freeTicks: 1, pb: [2]int{2, 3}}),
 	)
 	scs = append(scs,
 		acceptScenario(1, 1, [2]int{2, 3}, [2]int{0, 0}),
